@@ -286,7 +286,10 @@ class ResponseViews(Scenario):
                         if str(key) in v:
                             del v[str(key)]
                     elif what == "pop":
-                        v.pop(str(key), None)
+                        if str(key) in v and vi % 2:
+                            v.pop(str(key))  # the single-argument form is a different code path
+                        else:
+                            v.pop(str(key), None)
                     elif what == "clear":
                         v.clear()
                     elif what == "update":
@@ -366,7 +369,10 @@ class ResponseViews(Scenario):
                     elif what == "setitem":
                         v["x-directive"] = val or "v"
                     elif what == "delitem":
-                        v.pop("x-directive", None)
+                        if "x-directive" in v:
+                            v.pop("x-directive")
+                        else:
+                            v.pop("x-directive", None)
                     elif what == "clear":
                         v.clear()
                     elif what == "assign_str":
@@ -431,7 +437,10 @@ class ResponseViews(Scenario):
                         if key in v:
                             del v[key]
                     elif what == "pop":
-                        v.pop(key, None)
+                        if key in v and len(val) % 2:
+                            v.pop(key)
+                        else:
+                            v.pop(key, None)
                     elif what == "clear":
                         v.clear()
                     elif what == "update":
